@@ -139,7 +139,8 @@ class Runner(object):
         for k in list(sys.modules):
             if k == modname or k.startswith(modname + ".") or (extmod and k == extmod) or k.split(".")[0] == modname.split(".")[0]:
                 del sys.modules[k]
-        linecache.clearcache()
+        # NB: the line cache is NOT cleared here: noticing that a source file changed on disk is the library's job
+        # (inspect.getsource checks the freshness of the cached lines); clearing it here would hide a regression there
         importlib.invalidate_caches()
         if self.mode == "real":
             self.dds.accept_module(accept or modname.split(".")[0])
